@@ -75,3 +75,18 @@ Theorem c13_template_fn_result_replaces_the_call :
     end.
 Proof. exact expand_T_hooked. Qed.
 Print Assumptions c13_template_fn_result_replaces_the_call.
+
+(* BEGIN PINS (tools/repin.py) *)
+From WTP Require Import Gen.GenPins.
+Module Pins.
+Import String.
+(* The models of this property were transcribed from: core.py:Wtp.check_template_need_expand.
+   Gen/GenPins.v holds the digests of these functions in the current source (translate/pins.py: syntax tree without
+   docstrings, comments and layout).  A different digest means that the model is no longer known to describe the
+   code; the check then reports the broken tie and looks for a failing input. *)
+Theorem c13_models_describe_the_current_source :
+  pin_check_template_need_expand = "dec87a45c0493e21"%string.
+Proof. reflexivity. Qed.
+Print Assumptions c13_models_describe_the_current_source.
+End Pins.
+(* END PINS *)
